@@ -186,6 +186,9 @@ func lastJSON(out []byte) []byte {
 	return nil
 }
 
+// tierDeadline is the wall-clock time at which running tasks of the quick tier are cut (zero: none).
+var tierDeadline time.Time
+
 type task struct {
 	job   Job
 	shard int
@@ -197,8 +200,19 @@ func runTask(bin string, t *task, work string) {
 	j := t.job
 	args := []string{"-mode", j.Mode, "-name", j.Name, "-params", j.Params, "-bound", strconv.Itoa(j.Bound),
 		"-shard", fmt.Sprintf("%d/%d", t.shard, j.Shards)}
-	if j.Budget > 0 {
-		args = append(args, "-budget", fmt.Sprint(j.Budget))
+	budget := j.Budget
+	if !tierDeadline.IsZero() {
+		// the quick tier has an overall deadline: a task still running then is cut (and reported as not exhaustive)
+		remain := time.Until(tierDeadline).Seconds()
+		if remain < 10 {
+			remain = 10
+		}
+		if budget == 0 || budget > remain {
+			budget = remain
+		}
+	}
+	if budget > 0 {
+		args = append(args, "-budget", fmt.Sprint(budget))
 	}
 	if j.Horizon > 0 {
 		args = append(args, "-horizon", strconv.Itoa(j.Horizon))
@@ -274,6 +288,15 @@ func main() {
 	defer os.RemoveAll(work)
 
 	jobs := ck.Jobs(tier)
+	if tier == "quick" {
+		d := 600.0
+		if v := os.Getenv("VERIF_QUICK_DEADLINE"); v != "" {
+			if f, err := strconv.ParseFloat(v, 64); err == nil {
+				d = f
+			}
+		}
+		tierDeadline = start.Add(time.Duration(d * float64(time.Second)))
+	}
 	needRace, needPlain := false, false
 	for _, j := range jobs {
 		if j.Race {
@@ -390,6 +413,14 @@ func report(prop, tier string, seed int, ck Check, tasks []*task, wall float64) 
 			sums[key] = s
 			order = append(order, key)
 		}
+		if t.err != "" && prop == "C06" && strings.Contains(t.err, "exceeded 12 GiB of memory") {
+			// for the allocation property the death of a worker by its memory watchdog is the symptom itself
+			s.Complete = false
+			complete = false
+			viols = append(viols, vrec{desc: fmt.Sprintf("%s [%s] fail: the worker exceeded its memory limit while handling inputs of this class", t.job.Name, t.job.Params),
+				v: map[string]interface{}{"scenario": t.job.Name, "params": t.job.Params, "shard": t.shard, "detail": t.err}})
+			continue
+		}
 		if t.err != "" {
 			harnessErrs = append(harnessErrs, fmt.Sprintf("%s %s shard %d: %s", t.job.Name, t.job.Params, t.shard, t.err))
 			s.Complete = false
@@ -499,7 +530,9 @@ func report(prop, tier string, seed int, ck Check, tasks []*task, wall float64) 
 	}
 	for _, e := range harnessErrs {
 		fmt.Printf("HARNESS-ERROR property=%s %s\n", prop, strings.ReplaceAll(tail(e, 3000), "\n", "\n   "))
-		code = 2
+		if code == 0 {
+			code = 2
+		}
 	}
 	// evidence
 	cov := map[string]interface{}{
